@@ -207,7 +207,11 @@ func (s *SMF) finishTempoChanges() {
 
 func (s *SMF) calculateAbsTimes() {
 	var lasttcTick, lasttcTimeMicroSec int64
-	mt := s.TimeFormat.(MetricTicks)
+	mt, isMetric := s.TimeFormat.(MetricTicks)
+	if !isMetric {
+		// tempo changes have no influence on the timing of SMPTE time code files
+		return
+	}
 	for _, tc := range s.tempoChanges {
 		diffTicks := tc.AbsTicks - lasttcTick
 
@@ -235,7 +239,10 @@ func (s *SMF) calculateAbsTimes() {
 // TimeAt returns the absolute time for a given absolute tick (considering the tempo changes)
 func (s *SMF) TimeAt(absTicks int64) (absTimeMicroSec int64) {
 	s.finishTempoChanges()
-	mt := s.TimeFormat.(MetricTicks)
+	mt, isMetric := s.TimeFormat.(MetricTicks)
+	if !isMetric {
+		return 0
+	}
 	prevTc := s.tempoChanges.TempoChangeAt(absTicks - 1)
 	if prevTc == nil {
 		return mt.Duration(120.00, uint32(absTicks)).Microseconds()
